@@ -37,7 +37,7 @@ from ..evidence import Run, canon_hash
 PID = "C10"
 SHARDS = {"quick": 6, "thorough": 16}
 SHARD_TIMEOUT = {"quick": 400, "thorough": 1700}
-N_PER_TYPE = {"quick": 60, "thorough": 900}
+N_PER_TYPE = {"quick": 48, "thorough": 900}
 
 
 def new_run():
@@ -681,6 +681,12 @@ def polars_case(run, rec, label, t, rng):
                         viol(run, "null-not-preserved",
                              dict(base, position=i, got=G.vrepr(vout[i])))
                     continue
+                # a strict cast never turns a value into a missing value
+                run.count("polars:S3_value_not_nulled")
+                if vout[i] is None and not G.is_null(v):
+                    viol(run, "value-silently-became-null",
+                         dict(base, position=i, input=G.vrepr(v)))
+                    continue
                 if kind is None:
                     continue
                 ex, want = G.exact(kind, extra, v)
@@ -897,7 +903,7 @@ def _floors(run, ctx):
     if len(not_built) > 3:
         run.note_inconclusive(f"{len(not_built)} registered classes could not be built: "
                               f"{sorted(not_built)}")
-    q = 1 if ctx.tier == "quick" else 12
+    q = 1 if ctx.tier == "quick" else 15
     for name, m in FLOORS.items():
         run.floors[name] = m * q
     if run.counters.get("harness_error_total", 0):
@@ -916,7 +922,7 @@ FLOORS = {
     "polars:success": 330, "polars:parser_error": 198,
     "polars:S2_own_check": 330, "polars:S3_exact_elements": 99,
     "polars:S3_null_elements": 33, "polars:S5_idempotent": 330,
-    "polars:F2_failure_cases": 198,
+    "polars:F2_failure_cases": 198, "polars:S3_value_not_nulled": 400,
     "schema_level:pandas:expect_coercion_error": 1650,
     "schema_level:pandas:reason_DATATYPE_COERCION": 1650,
     "schema_level:pandas:expect_no_coercion_error": 990,
